@@ -216,8 +216,9 @@ def check_corners(ctx, R="C07.corners"):
             ax, sg = WORD_SIGN[w]
             want[ax] = ("-" if sg < 0 else "") + f"self.{HALF[ax]}"
         good = False
-        if len(rets) == 1 and isinstance(rets[0].value, ast.Call) and unparse(rets[0].value.func) == "self.relativize" and len(rets[0].value.args) == 1:
-            v = rets[0].value.args[0]
+        rv = lib.role_expr(fn, rets[0].value) if len(rets) == 1 else None  # locals replaced by their definitions
+        if rv is not None and isinstance(rv, ast.Call) and unparse(rv.func) == "self.relativize" and len(rv.args) == 1:
+            v = rv.args[0]
             if isinstance(v, ast.Call) and dotted(v.func) == "Vector":
                 got = [unparse(a) for a in v.args] + ["0"] * (3 - len(v.args))
                 good = got == want
